@@ -228,7 +228,7 @@ def wrap_tail(body, name, proof, path, pre=''):
     tail = body[start:close]
     if not tail.strip():
         raise AnchorError('%s: tail: the body has no tail expression' % path)
-    return body[:start] + '\n({ %s let %s = %s; proof { %s } %s })\n' % (pre, name, tail.strip(), proof, name) + body[close:]
+    return body[:start] + '\n({ %s let %s = %s;\n proof { %s } //@[%s.tail]\n %s })\n' % (pre, name, tail.strip(), ' '.join(proof.split('\n')), path.split('::')[-1], name) + body[close:]
 
 
 class Gen:
@@ -502,7 +502,7 @@ class Gen:
                 body_pre += '\n proof { ' + spec['body_start'] + ' }\n'
             body_post = ''
             if spec.get('body_end'):
-                body_post = '\n; proof { ' + spec['body_end'] + ' }\n'
+                body_post = '\n; proof { ' + ' '.join(spec['body_end'].split('\n')) + ' } //@[%s.loop%d.step]\n' % (fn.short, k)
             if spec.get('iter_name'):
                 mi = re.compile(r'\sin\s').search(m, ks, bo)
                 if not mi:
@@ -639,6 +639,19 @@ class Gen:
         except KeyError as e:
             raise AnchorError('lost anchor: %s' % e)
         t = ' '.join(c.src[it.start:it.end].split())
+        ma = re.match(r'(?:pub(?:\([^)]*\))?\s+)?const\s+(\w+)\s*:\s*\[f64;\s*(\d+)\]\s*=\s*\[(.*)\];$', t)
+        if ma:
+            # R9c for `const NAME: [f64; N] = [lit, ...];`: accessor returning the array, spec sequence k_NAME(), one real-value axiom per element
+            name, n, elems = ma.group(1), int(ma.group(2)), [e.strip() for e in ma.group(3).split(',') if e.strip()]
+            if len(elems) != n:
+                raise AnchorError('%s: %d initialisers for [f64; %d]' % (path, len(elems), n))
+            vals = [real_expr_of_const_init(e) for e in elems]
+            if any(v is None for v in vals):
+                raise AnchorError('%s: an initializer is outside the const evaluator' % path)
+            self.log.add('R9c', path, t[:80], 'c_%s() array of %d with element-wise real values' % (name, n))
+            ens = ', '.join(['#[trigger] k_%s().len() == %d' % (name, n)] + ['rv(k_%s()[%d]) == %s' % (name, k, v) for k, v in enumerate(vals)])
+            return ('pub uninterp spec fn k_%s() -> Seq<f64>;\n#[verifier::external_body]\npub fn c_%s() -> (r: [f64; %d]) ensures r@ == k_%s() { unimplemented!() }\n'
+                    '#[verifier::external_body]\npub broadcast proof fn ax_const_%s() ensures %s {}' % (name, name, n, name, name, ens)), name
         mk = re.match(r'(?:pub(?:\([^)]*\))?\s+)?const\s+(\w+)\s*:\s*f64\s*=\s*(.*);$', t)
         if not mk:
             raise AnchorError('%s is not a scalar f64 const: %s' % (path, t[:80]))
@@ -715,7 +728,7 @@ class Gen:
                 except KeyError:
                     continue
                 ctxt = ' '.join(self.crate.src[cit.start:cit.end].split())
-                if cit.kind == 'const' and re.search(r'const\s+\w+\s*:\s*f64\s*=', ctxt):
+                if cit.kind == 'const' and re.search(r'const\s+\w+\s*:\s*(f64|\[f64;\s*\d+\])\s*=', ctxt):
                     consts.append(cpath)
         for cpath in consts:
             ctext, cname = self.const_text(cpath)
